@@ -108,7 +108,7 @@ def run_deriv(case):
              'arcsin': lambda: x.arcsin(), 'pow': lambda: x ** case['expo'], 'unit': lambda: x.unit(),
              'norm': lambda: x.norm(), 'exp': lambda: x.exp(check=True), 'arccos': lambda: x.arccos(),
              'qrecip': lambda: x.reciprocal()}[op]
-    with warnings.catch_warnings(record=True) as w:
+    with warnings.catch_warnings(record=True) as w, K.ambient(case.get('errstate')):
         warnings.simplefilter('always')
         try:
             r = f(); e = None
@@ -216,8 +216,13 @@ def request(case):
 
 
 # ------------------------------------------------------------------ direct oracle
-def signature(case):
-    return 'c02:' + G.signature(case) + (':fast' if is_fast(case) else '') + (':deriv' if case.get('deriv') else '')
+def signature(case, tag=''):
+    s = 'c02:' + G.signature(case) + (':fast' if is_fast(case) else '') + (':deriv' if case.get('deriv') else '')
+    if case.get('errstate'):
+        # cases run under an ambient NumPy error state name the state AND the kind of failure, so that a known finding
+        # about one of them never hides a different failure
+        s += ':errstate=' + case['errstate'] + (':' + tag if tag else '')
+    return s
 
 
 def is_fast(case):
@@ -244,32 +249,32 @@ def base_case(case):
 
 
 def oracle(case):
-    sig = signature(case)
+    sig = lambda tag: signature(case, tag)
     r, e, w = run_case(case)
     base = base_case(case)
     opds = K.logical_opds(base)
     if K.lead_bcast([o['shape'] for o in opds]) is None:
         return None
     if w:
-        return (sig, '%s: warning escaped: %s' % (case['op'], w))
+        return (sig('warning'), '%s: warning escaped: %s' % (case['op'], w))
     if e is not None:
         if is_fast(case) and isinstance(e, ValueError) and K.undefined_unmasked(dict(base, params={})) :
             return None
-        return (sig, '%s raised %s: %s' % (case['op'], type(e).__name__, e))
+        return (sig('exc=' + type(e).__name__), '%s raised %s: %s' % (case['op'], type(e).__name__, e))
     if not isinstance(r, Qube):
-        return (sig, '%s returned %s' % (case['op'], type(r).__name__))
+        return (sig('type'), '%s returned %s' % (case['op'], type(r).__name__))
     exp = K.expected_mask(base)
     got = expanded_mask(r)
     if list(r._shape_) != exp[0]:
-        return (sig, 'result shape %s, expected %s' % (list(r._shape_), exp[0]))
+        return (sig('shape'), 'result shape %s, expected %s' % (list(r._shape_), exp[0]))
     if not np.array_equal(got, exp[1]):
-        return (sig, '%s: mask %s, but operand masks U undefined set = %s'
+        return (sig('mask'), '%s: mask %s, but operand masks U undefined set = %s'
                 % (case['op'], got.astype(int).tolist(), exp[1].astype(int).tolist()))
     item = r._item_
     vals = np.broadcast_to(np.asarray(r._values_, dtype=float), r._shape_ + item)
     um = ~got
     if um.any() and not np.isfinite(vals[um]).all():
-        return (sig, '%s: unmasked non-finite value %s' % (case['op'], vals[um].tolist()))
+        return (sig('nonfinite'), '%s: unmasked non-finite value %s' % (case['op'], vals[um].tolist()))
     ref = OPS[case['op']].get('ref')
     if ref is not None and um.any():
         with np.errstate(all='ignore'):
@@ -282,14 +287,20 @@ def oracle(case):
         if rv is not None and rv.shape == vals.shape:
             a, b = vals[um], rv[um]
             if not np.allclose(a, b, rtol=1e-12, atol=1e-300):
-                return (sig, '%s: unmasked values %s differ from the reference %s' % (case['op'], a.tolist(), b.tolist()))
+                return (sig('values'), '%s: unmasked values %s differ from the reference %s' % (case['op'], a.tolist(), b.tolist()))
     for key, d in r._derivs_.items():
         dm = expanded_mask(d)
         dv = np.broadcast_to(np.asarray(d._values_, dtype=float), d._shape_ + d._item_)
         ok = ~got & ~dm
         if ok.any() and not np.isfinite(dv[ok]).all():
-            return (sig, '%s: derivative d_d%s has a non-finite value where neither result nor derivative is masked'
+            return (sig('deriv-nonfinite'), '%s: derivative d_d%s has a non-finite value where neither result nor derivative is masked'
                     % (case['op'], key))
+    if case.get('errstate'):
+        # what polymath returns must not depend on the caller's NumPy floating-point error state
+        here, dflt = C.sx(impl(case)), C.sx(impl(dict(case, errstate=None)))
+        if here != dflt:
+            return (sig('differs'), '%s under %s: observation %s differs from the one under NumPy\'s default error state %s'
+                    % (case['op'], case['errstate'], here[:200], dflt[:200]))
     return None
 
 
@@ -302,7 +313,7 @@ def mk(case):
         nt = nt or K.undefined_unmasked(dict(base_case(case), params={}))
     case['nontrivial'] = bool(nt)
     case['kind'] = case['op'] + ':' + '+'.join(o['k'] for o in case['opds']) + (':fast' if is_fast(case) else '') \
-        + (':deriv' if case.get('deriv') else '')
+        + (':deriv' if case.get('deriv') else '') + ((':errstate=' + case['errstate']) if case.get('errstate') else '')
     return case
 
 
@@ -411,7 +422,20 @@ def gen_cases(rng, tier):
             for s in G.SHAPES1:
                 x, dx = G.rand_opd(rng, k, s), dop(k, s)
                 cases.append(mk({'op': op, 'opds': [x, dx], 'deriv': True}))
-    return cases
+    # 5. the caller's NumPy floating-point error state: a slice of the restricted-domain cases is repeated inside
+    #    np.errstate(all='ignore' | 'warn' | 'raise') and after a global np.seterr(all='ignore'); the observation must be
+    #    the one obtained under NumPy's default state (same model answer, same oracle)
+    extra = []
+    k = 0
+    for c in cases:
+        if OPS[c['op']]['fail'] is None and not c.get('deriv'):
+            continue
+        if rng.random() < (0.35 if c['op'] == 'pow' or c.get('deriv') or is_fast(c) else 0.15):
+            d = {x: v for x, v in c.items() if x not in ('req', 'kind', 'nontrivial')}
+            d['errstate'] = K.AMBIENT[k % len(K.AMBIENT)]
+            k += 1
+            extra.append(mk(d))
+    return cases + extra
 
 
 def neighbours(case):
